@@ -1,10 +1,10 @@
 #!/bin/bash
-# tools/validate_seed.sh <ID> <k>: validates /tmp/seed/<ID>/seeded_out/change<k>.diff
+# tools/validate_seed.sh <ID> <k> [root=/tmp/seed] [dest-k]: validates <root>/<ID>/seeded_out/change<k>.diff
 # (applies to a scratch worktree of /repo HEAD, runs the repo tests, runs the demo
 # with and without the change) and, if all holds, stores it as /verif/seeded/<ID>-<k>/.
 set -u
-ID=$1; K=$2
-SRC=/tmp/seed/$ID/seeded_out
+ID=$1; K=$2; ROOT=${3:-/tmp/seed}; DK=${4:-$K}
+SRC=$ROOT/$ID/seeded_out
 [ -f "$SRC/change$K.diff" ] || { echo "no change$K.diff for $ID"; exit 3; }
 WT=$(mktemp -d /tmp/val.XXXXXX); rmdir "$WT"
 git -C /repo worktree add -q --detach "$WT" HEAD || exit 3
@@ -18,7 +18,7 @@ echo "$ID-$K: demo_without=$D0 demo_with=$D1 tests: $T"
 OK=0
 if [ $D0 -eq 0 ] && [ $D1 -ne 0 ] && echo "$T" | grep -q "190 passed" && ! echo "$T" | grep -q failed; then OK=1; fi
 if [ $OK -eq 1 ]; then
-  DEST=/verif/seeded/$ID-$K; mkdir -p "$DEST"
+  DEST=/verif/seeded/$ID-$DK; mkdir -p "$DEST"
   cp "$SRC/change$K.diff" "$DEST/patch.diff"; cp "$SRC/demo$K.py" "$DEST/demo.py"
   /venv/bin/python - "$SRC/meta$K.json" "$DEST/meta.json" "$T" <<'PY'
 import json,sys
@@ -27,7 +27,7 @@ m["validated"]={"demo_exit_without_change":0,"demo_exit_with_change":"non-zero",
   "how":"tools/validate_seed.sh: scratch worktree of /repo HEAD, git apply, pytest, demo with and without the change"}
 json.dump(m,open(sys.argv[2],"w"),indent=1)
 PY
-  echo "$ID-$K: KEPT"
+  echo "$ID-$DK: KEPT"
 else
   echo "$ID-$K: REJECTED"; tail -5 /tmp/val_out_$$ /tmp/val_out2_$$
 fi
